@@ -443,6 +443,18 @@ func (env *SpecEnv) evalCall(c *SCall) *Value {
 			specFail("asRef(ifaceValue, \"type\")")
 		}
 		return scalar(e.shapeOf(env.resolveGoType(ts.V)), v.L[1])
+	case "ifaceStr":
+		// the string held by an interface value (a queue key)
+		v := env.eval(c.Args[0])
+		if v.Sh.Kind != KIface {
+			specFail("ifaceStr of %s", v.Sh)
+		}
+		e.ensureBoxStrAxiom()
+		return scalar(shStr, app("unbox.str", v.L[1]))
+	case "strIface":
+		v := env.eval(c.Args[0])
+		e.ensureBoxStrAxiom()
+		return &Value{Sh: shIface, L: []string{e.typeTag(types.Typ[types.String]), app("box.str", v.T())}}
 	case "ifaceOf":
 		// ifaceOf(ref, "type"): the interface value holding that pointer
 		v := env.eval(c.Args[0])
@@ -784,4 +796,15 @@ func (e *Engine) ensureBytesAxiom(arrSort string) {
 	e.declFun("bytes.arr", []string{"Str"}, arrSort)
 	e.axiomTerms = append(e.axiomTerms, axiomTerm{name: "string([]byte(s)) == s",
 		term: "(forall ((s Str)) (! (= (sofbytes (slen s) (bytes.arr s)) s) :pattern ((bytes.arr s))))", src: "builtin"})
+}
+
+func (e *Engine) ensureBoxStrAxiom() {
+	e.declFun("box.str", []string{"Str"}, "Int")
+	e.declFun("unbox.str", []string{"Int"}, "Str")
+	if e.boxStrAxiom {
+		return
+	}
+	e.boxStrAxiom = true
+	e.axiomTerms = append(e.axiomTerms, axiomTerm{name: "unbox(box(s)) == s",
+		term: "(forall ((s Str)) (! (= (unbox.str (box.str s)) s) :pattern ((box.str s))))", src: "builtin"})
 }
